@@ -82,17 +82,18 @@ def deliberate():
 
 def run(ck):
     thorough = ck.tier == "thorough"
+    binp = ck.gobuild("sharda")
+    world = su.detect_world(ck, binp)
     if not ck.replay and not os.environ.get("VERIF_SKIP_MODEL"):   # (dev aid for mutation runs: the model check does not depend on the tree)
-        ck.tlc_model("Shard", "Shard_C43t.cfg" if thorough else "Shard_C43.cfg", timeout=3000)
+        ck.tlc_model("Shard", "Shard_C43t.cfg" if thorough else "Shard_C43.cfg", timeout=3000, files=su.cfg_files(world, "Shard_C43t.cfg" if thorough else "Shard_C43.cfg"))
         ck.setcov("exhaustive", True)
         ck.setcov("constants", "repaired model; modes RW/RO/DEGRO x faults {none,wc,blob,meta}; wc in {off,on}; Objs=%s; probes Put/Delete/Mark/Exists/Get; unbounded sequence length"
                   % ("{1,2} + Delete MarkDef GC" if thorough else "{1} + Put Flush"))
-    binp = ck.gobuild("sharda")
     ncex = 0
     if ck.replay:
         scripts = [json.load(open(ck.replay))["replay"]["script"]]
     else:
-        r = ck.tlc("ShardGen", "ShardGen_C43cex.cfg", timeout=900, deadlock=False, count=False)
+        r = ck.tlc("ShardGen", "ShardGen_C43cex.cfg", timeout=900, deadlock=False, count=False, files=su.cfg_files(world, "ShardGen_C43cex.cfg"))
         cex = []
         for ln in r.out.splitlines():
             if ln.startswith('<<"BEH", '):
@@ -105,7 +106,7 @@ def run(ck):
         scripts = cex + deliberate()
         seen = set()
         for s in range(3 if thorough else 1):
-            for b in ck.tlc_scripts("ShardGen", "ShardGen_C43.cfg", num=1500 if thorough else 100, depth=9, seed=ck.seed * 10 + s, timeout=900):
+            for b in ck.tlc_scripts("ShardGen", "ShardGen_C43.cfg", files=su.cfg_files(world, "ShardGen_C43.cfg"), num=1500 if thorough else 100, depth=9, seed=ck.seed * 10 + s, timeout=900):
                 k = json.dumps(b, sort_keys=True)
                 if k not in seen and any(st["op"] == "SetMode" for st in b["steps"]):
                     seen.add(k)
@@ -114,21 +115,21 @@ def run(ck):
             sc["steps"] = list(sc["steps"]) + FINAL
     tp, info = su.run_scripts(ck, binp, scripts)
     ck.log("harness: %s" % info)
-    v = su.validate(ck, "TraceShard_C43fixed.cfg", tp)
-    world = "repaired"
+    v = su.validate(ck, "TraceShard_C43fixed.cfg", tp, world=world)
+    behaves = "repaired"
     if not v.r.ok:
         first = v
         ck.log("repaired model does not describe this tree (%s %s at event %s: %s); validating against the as-is model"
                % (v.r.kind, v.r.name, v.stuck[0] if v.stuck else "?", v.stuck[1][:3] if v.stuck else ""))
-        v = su.validate(ck, "TraceShard_C43.cfg", tp)
-        world = "as-is"
+        v = su.validate(ck, "TraceShard_C43.cfg", tp, world=world)
+        behaves = "as-is"
         if not v.r.ok:
             # neither model describes the tree: report the rejection of the model that followed it further
             if (first.stuck[0] if first.stuck else 0) > (v.stuck[0] if v.stuck else 0):
                 v = first
             ck.log("as-is model rejects as well")
-            world = "neither"
-    ck.setcov("tree_behaves_as", world)
+            behaves = "neither"
+    ck.setcov("tree_behaves_as", behaves)
     ev = v.events
     if not v.r.ok:
         su.judge(ck, "C43", v, scripts, "C43", lambda c: c, lambda c: c)
